@@ -257,6 +257,18 @@ func (k c10) random(c *rt.Ctx) {
 		k.judgeField(c, gen.Call("len", gen.IndexS(gen.IndexS(gen.Call("json", gen.Str(c10JSON[2])), "o"), "z")), []refstore.Pair{{K: "a", V: "b"}}, "len", "const")
 		doc := c10JSON[r.Intn(len(c10JSON))]
 		k.judgeField(c, mk(gen.Call("json", gen.Str(doc))), []refstore.Pair{{K: "a", V: "b"}, {K: "c", V: "d"}}, "json", "const")
+		// a member that is text in one row and a number in the next: conversions look at each row's value
+		{
+			mixedA := []refstore.Pair{{K: "m00", V: `{"x":"12"}`}, {K: "m01", V: `{"x":7}`}, {K: "m02", V: `{"x":"3"}`}, {K: "m03", V: `{"x":2.5}`}, {K: "m04", V: `{"x":"40"}`}, {K: "m05", V: `{"x":9}`}}
+			mixedB := []refstore.Pair{{K: "m00", V: `{"x":7}`}, {K: "m01", V: `{"x":"12"}`}, {K: "m02", V: `{"x":2.5}`}, {K: "m03", V: `{"x":"3"}`}, {K: "m04", V: `{"x":9}`}, {K: "m05", V: `{"x":"1.5"}`}}
+			fn := []string{"int", "float", "str", "is_int", "is_float"}[r.Intn(5)]
+			st := mixedA
+			if r.Bool() {
+				st = mixedB
+			}
+			k.judgeField(c, gen.Call(fn, gen.IndexS(gen.Call("json", gen.Value()), "x")), st, fn, "rowdep-mixed-member")
+			c.Rec.Inc("json_member_of_mixed_type")
+		}
 		// several documents in one statement: each json() call parses its own argument
 		y := func(doc *gen.Node) *gen.Node { return gen.IndexS(gen.Call("json", doc), "y") }
 		constDoc := gen.Str(`{"y":"const","x":0}`)
